@@ -78,7 +78,7 @@ impl<SystemType : System> SysCache<SystemType> {
 //@ props C06
 //@ ret res
 //@ param Tracked(w): Tracked<&mut World>
-//@ addarg 3 /system\.(is_dir|is_file|rename)/ Tracked(w)
+//@ addarg * /system\.(is_dir|is_file|rename)/ Tracked(w)
 //@ rewrite 1 /format!\("\{\}\/\{\}", self\.path, ticket\.human_readable\(\)\)/ => fmt_slash(&self.path, &ticket.human_readable())
 //@ spec
         requires old(self).wf(*old(w)), inv_cache(*old(w)), !under(old(w).cache_dir, target_path@), !old(w).files.contains_key(target_path@),
@@ -97,7 +97,7 @@ impl<SystemType : System> SysCache<SystemType> {
 //@ props C06
 //@ ret res
 //@ param Tracked(w): Tracked<&mut World>
-//@ addarg 1 /system\.rename/ Tracked(w)
+//@ addarg * /system\.rename/ Tracked(w)
 //@ rewrite 1 /format!\("\{\}\/\{\}", self\.path, ticket\.human_readable\(\)\)/ => fmt_slash(&self.path, &ticket.human_readable())
 //@ spec
         requires old(self).wf(*old(w)), inv_cache(*old(w)), !under(old(w).cache_dir, target_path@),
@@ -116,7 +116,7 @@ impl<SystemType : System> SysCache<SystemType> {
 //@ props C06
 //@ ret res
 //@ param Tracked(w): Tracked<&mut World>
-//@ addarg 3 /cache\.restore_file|downloader_cache\.restore_file|system\.set_is_executable/ Tracked(w)
+//@ addarg * /cache\.restore_file|downloader_cache\.restore_file|system\.set_is_executable/ Tracked(w)
 //@ rewrite * /println!\([^;]*\);/ => <empty>
 //@ spec
     requires old(cache).wf(*old(w)), inv_cache(*old(w)), no_urls(*downloader_cache_opt),
@@ -133,7 +133,7 @@ impl<SystemType : System> SysCache<SystemType> {
 //@ props C06
 //@ ret res
 //@ param Tracked(w): Tracked<&mut World>
-//@ addarg 4 /get_file_ticket|cache\.back_up_file_with_ticket|restore_or_download/ Tracked(w)
+//@ addarg * /get_file_ticket|cache\.back_up_file_with_ticket|restore_or_download/ Tracked(w)
 //@ spec
     requires old(cache).wf(*old(w)), inv_cache(*old(w)), no_urls(*downloader_cache_opt), !under(old(w).cache_dir, target_info.path@),
     ensures final(cache).wf(*final(w)), final(cache).path@ == old(cache).path@, inv_cache(*final(w)), same_consts(*old(w), *final(w)),
